@@ -608,7 +608,34 @@ func validateChildAgainstAncestor(child *schedulingv1beta1.Queue) error {
 		}
 	}
 
+	// Descendants move together with the queue: where the queue sets no capability itself,
+	// the largest capability below it has to fit under the same ancestors.
+	names := map[v1.ResourceName]struct{}{}
+	collectDescendantCapabilityNames(child, names)
+	for r := range names {
+		subtreeMax := findSubtreeMaxCapability(child, r)
+		if upLimit, ok := findNearestAncestorCapability(child, r); ok && subtreeMax > upLimit {
+			return fmt.Errorf("descendants of queue %s have capability[%s]=%v which exceeds its ancestor's capability=%v", child.Name, r, formatResourceWithType(r, subtreeMax), formatResourceWithType(r, upLimit))
+		}
+	}
+
 	return nil
+}
+
+// collectDescendantCapabilityNames gathers the resource names for which some descendant of the queue sets a capability
+func collectDescendantCapabilityNames(q *schedulingv1beta1.Queue, names map[v1.ResourceName]struct{}) {
+	children, err := config.GetQueuesByParent(q.Name)
+	if err != nil {
+		return
+	}
+	for _, cq := range children {
+		if cq.Spec.Capability != nil {
+			for _, r := range api.NewResource(cq.Spec.Capability).ResourceNames() {
+				names[r] = struct{}{}
+			}
+		}
+		collectDescendantCapabilityNames(cq, names)
+	}
 }
 
 // validateSiblingsSum validates that sum of all sibling queues' resources don't exceed parent's limit
